@@ -27,6 +27,8 @@ import (
 type InlInfo struct {
 	Callee string // key of the inlined function
 	Site   int    // node id of the call site in the outer graph
+	// Lo, Hi: the source range of the inlined function (declaration or literal): what is declared there is local to it
+	Lo, Hi token.Pos
 }
 
 const inlineDepth = 3
@@ -267,6 +269,12 @@ func (f *Flat) splice(N *GNode, call *ast.CallExpr, form int, negated bool, call
 		f.Alias = map[types.Object]ast.Expr{}
 	}
 	off := len(f.Nodes)
+	var calleeLo, calleeHi token.Pos
+	if callee.Lit != nil {
+		calleeLo, calleeHi = callee.Lit.Pos(), callee.Lit.End()
+	} else if callee.Decl != nil {
+		calleeLo, calleeHi = callee.Decl.Pos(), callee.Decl.End()
+	}
 	isDefer := map[ast.Node]bool{}
 	for _, d := range defers {
 		isDefer[d] = true
@@ -282,9 +290,9 @@ func (f *Flat) splice(N *GNode, call *ast.CallExpr, form int, negated bool, call
 		}
 		f.Nodes = append(f.Nodes, cp)
 		if ii, ok := cf.Inl[c.ID]; ok {
-			f.Inl[cp.ID] = InlInfo{Callee: ii.Callee, Site: ii.Site + off}
+			f.Inl[cp.ID] = InlInfo{Callee: ii.Callee, Site: ii.Site + off, Lo: ii.Lo, Hi: ii.Hi}
 		} else {
-			f.Inl[cp.ID] = InlInfo{Callee: callee.Key, Site: N.ID}
+			f.Inl[cp.ID] = InlInfo{Callee: callee.Key, Site: N.ID, Lo: calleeLo, Hi: calleeHi}
 		}
 	}
 	for o, e := range cf.Alias {
@@ -366,7 +374,7 @@ func (f *Flat) splice(N *GNode, call *ast.CallExpr, form int, negated bool, call
 			Ast: &ast.AssignStmt{Lhs: spreadLhs, TokPos: call.Lparen, Tok: token.DEFINE, Rhs: []ast.Expr{spread}}}
 		sn.Succs = []Edge{{To: entry}}
 		f.Nodes = append(f.Nodes, sn)
-		f.Inl[sn.ID] = InlInfo{Callee: callee.Key, Site: N.ID}
+		f.Inl[sn.ID] = InlInfo{Callee: callee.Key, Site: N.ID, Lo: calleeLo, Hi: calleeHi}
 		entry = sn.ID
 	}
 	if len(lhs) > 0 {
@@ -408,13 +416,13 @@ func (f *Flat) splice(N *GNode, call *ast.CallExpr, form int, negated bool, call
 		for d := len(defers) - 1; d >= 0; d-- {
 			dn := &GNode{ID: len(f.Nodes), Block: c.Block, Ast: &ast.ExprStmt{X: defers[d].Call}}
 			f.Nodes = append(f.Nodes, dn)
-			f.Inl[dn.ID] = InlInfo{Callee: callee.Key, Site: N.ID}
+			f.Inl[dn.ID] = InlInfo{Callee: callee.Key, Site: N.ID, Lo: calleeLo, Hi: calleeHi}
 			cur.Succs = []Edge{{To: dn.ID}}
 			cur = dn
 		}
 		bn := &GNode{ID: len(f.Nodes), Block: c.Block, Synth: "result"}
 		f.Nodes = append(f.Nodes, bn)
-		f.Inl[bn.ID] = InlInfo{Callee: callee.Key, Site: N.ID}
+		f.Inl[bn.ID] = InlInfo{Callee: callee.Key, Site: N.ID, Lo: calleeLo, Hi: calleeHi}
 		cur.Succs = []Edge{{To: bn.ID}}
 		switch form {
 		case 1:
